@@ -176,8 +176,8 @@ Proof.
   - (* spin *)
     unfold wloc.
     destruct (Z.eqb_spec q 0); [subst; reflexivity|].
-    destruct (Z.eqb_spec q 1); [subst; cbn [Z.ltb Z.abs_nat Z.compare Pos.to_nat Pos.iter_op wit local fst snd]; ring|].
-    destruct (Z.eqb_spec q (-1)); [subst; cbn [Z.ltb Z.abs_nat Z.compare Pos.to_nat Pos.iter_op wit local fst snd]; ring|].
+    destruct (Z.eqb_spec q 1); [subst; change (Z.abs_nat 1) with 1%nat; change (1 <? 0) with false; cbn [wit local fst snd]; ring|].
+    destruct (Z.eqb_spec q (-1)); [subst; change (Z.abs_nat (-1)) with 1%nat; change (-1 <? 0) with true; cbn [wit local fst snd]; ring|].
     destruct (Z.abs_nat q) as [|[|r]] eqn:E; try lia.
     cbn [wit]. destruct (q <? 0); cbn [local fst snd].
     * destruct (Z.eqb_spec v 0), (Z.eqb_spec (v + 1) 0); cbn [gind]; try lia; ring.
@@ -185,8 +185,8 @@ Proof.
   - (* fermion *)
     unfold wloc.
     destruct (Z.eqb_spec q 0); [subst; reflexivity|].
-    destruct (Z.eqb_spec q 1); [subst; cbn [Z.ltb Z.abs_nat Z.compare Pos.to_nat Pos.iter_op wit local fst snd]; ring|].
-    destruct (Z.eqb_spec q (-1)); [subst; cbn [Z.ltb Z.abs_nat Z.compare Pos.to_nat Pos.iter_op wit local fst snd]; ring|].
+    destruct (Z.eqb_spec q 1); [subst; change (Z.abs_nat 1) with 1%nat; change (1 <? 0) with false; cbn [wit local fst snd]; ring|].
+    destruct (Z.eqb_spec q (-1)); [subst; change (Z.abs_nat (-1)) with 1%nat; change (-1 <? 0) with true; cbn [wit local fst snd]; ring|].
     destruct (Z.abs_nat q) as [|[|r]] eqn:E; try lia.
     cbn [wit]. destruct (q <? 0); cbn [local fst snd].
     * destruct (Z.eqb_spec v 0), (Z.eqb_spec (v + 1) 0); cbn [gind]; try lia; ring.
@@ -199,4 +199,166 @@ Proof.
   unfold opact. rewrite iter_step_cons_O.
   split; cbn [fst snd]; [rewrite wit_wloc; ring|].
   unfold vshift. destruct (Z.ltb_spec q 0); f_equal; lia.
+Qed.
+
+(** ** lifting the passes over the tail of the mode list *)
+Fixpoint parPosI (ks : sig) (p : list Z) (i : nat) : bool :=
+  match p with
+  | [] => false
+  | q :: r => xorb (isF (kget ks i) && (0 <? q) && Z.odd q) (parPosI ks r (S i))
+  end.
+Fixpoint parNegI (ks : sig) (p : list Z) (i : nat) : bool :=
+  match p with
+  | [] => false
+  | q :: r => xorb (isF (kget ks i) && (q <? 0) && Z.odd q) (parNegI ks r (S i))
+  end.
+
+Lemma parPosI_cons k ks p i : parPosI (k :: ks) p (S i) = parPosI ks p i.
+Proof. revert i; induction p; intros i; cbn [parPosI]; [reflexivity|]. rewrite IHp. reflexivity. Qed.
+Lemma parNegI_cons k ks p i : parNegI (k :: ks) p (S i) = parNegI ks p i.
+Proof. revert i; induction p; intros i; cbn [parNegI]; [reflexivity|]. rewrite IHp. reflexivity. Qed.
+Lemma kget_nil i : kget [] i = Boson.
+Proof. destruct i; reflexivity. Qed.
+Lemma parPosI_nil p i : parPosI [] p i = false.
+Proof. revert i; induction p; intros i; cbn [parPosI]; [reflexivity|]. rewrite IHp, kget_nil. reflexivity. Qed.
+Lemma parNegI_nil p i : parNegI [] p i = false.
+Proof. revert i; induction p; intros i; cbn [parNegI]; [reflexivity|]. rewrite IHp, kget_nil. reflexivity. Qed.
+
+Lemma par_split ks p : xorb (parPosI ks p 0) (parNegI ks p 0) = parF ks p.
+Proof.
+  revert p; induction ks; intros p.
+  - rewrite parPosI_nil, parNegI_nil. destruct p; reflexivity.
+  - destruct p as [|q p]; [reflexivity|].
+    cbn [parPosI parNegI parF]. rewrite parPosI_cons, parNegI_cons, <- IHks.
+    unfold kget; cbn [nth].
+    destruct (isF a); cbn [andb]; [|destruct (parPosI ks p 0), (parNegI ks p 0); reflexivity].
+    destruct (Z.ltb_spec 0 q), (Z.ltb_spec q 0); try lia; cbn [andb];
+      destruct (parPosI ks p 0), (parNegI ks p 0), (Z.odd q) eqn:E; try reflexivity.
+    all: assert (q = 0) by lia; subst; discriminate.
+Qed.
+
+Lemma apass_aux_cons_S k ks p i c v n :
+  peq (apass_aux (k :: ks) p (S i) (c, v :: n))
+      (pscale (gsgn (isF k && (v =? 1) && parPosI ks p i)) (lift v (apass_aux ks p i (c, n)))).
+Proof.
+  revert i c n; induction p as [|q r IH]; intros i c n.
+  - cbn [apass_aux parPosI]. rewrite andb_false_r.
+    split; unfold lift, pscale; cbn [fst snd gsgn]; [ring|reflexivity].
+  - cbn [apass_aux parPosI].
+    destruct (Z.ltb_spec 0 q) as [Hq|Hq].
+    + unfold papp. cbn [fst snd].
+      rewrite opact_cons_S.
+      destruct (opact ks i q n) as [c1 n1].
+      set (b1 := isF (kget ks i) && isF k && (v =? 1) && Z.odd q).
+      assert (Hp : peq (pscale c (pscale (gsgn b1) (lift v (c1, n1)))) (pscale (gsgn b1) (gmul c c1, v :: n1))).
+      { split; unfold lift, pscale; cbn [fst snd]; [ring|reflexivity]. }
+      rewrite Hp, apass_aux_pscale, IH, pscale_pscale.
+      unfold pscale at 3. cbn [fst snd].
+      apply pscale_Proper; [|reflexivity].
+      subst b1. rewrite andb_true_r.
+      destruct (isF (kget ks i)), (isF k), (v =? 1), (Z.odd q), (parPosI ks r (S i)); cbn [andb xorb gsgn]; ring.
+    + rewrite IH. rewrite andb_false_r. cbn [andb]. rewrite xorb_false_l. reflexivity.
+Qed.
+
+Lemma cpass_aux_cons_S k ks p i c v n :
+  peq (cpass_aux (k :: ks) p (S i) (c, v :: n))
+      (pscale (gsgn (isF k && (v =? 1) && parNegI ks p i)) (lift v (cpass_aux ks p i (c, n)))).
+Proof.
+  revert i c n; induction p as [|q r IH]; intros i c n.
+  - cbn [cpass_aux parNegI]. rewrite andb_false_r.
+    split; unfold lift, pscale; cbn [fst snd gsgn]; [ring|reflexivity].
+  - cbn [cpass_aux parNegI].
+    destruct (Z.ltb_spec q 0) as [Hq|Hq].
+    + rewrite IH.
+      destruct (cpass_aux ks r (S i) (c, n)) as [c0 n0].
+      set (b0 := isF k && (v =? 1) && parNegI ks r (S i)).
+      unfold lift at 1, pscale at 1. cbn [fst snd].
+      unfold papp. cbn [fst snd].
+      rewrite opact_cons_S.
+      destruct (opact ks i q n0) as [c1 n1].
+      split; unfold lift, pscale; cbn [fst snd]; [|reflexivity].
+      subst b0. rewrite andb_true_r.
+      destruct (isF (kget ks i)), (isF k), (v =? 1), (Z.odd q), (parNegI ks r (S i)); cbn [andb xorb gsgn]; ring.
+    + rewrite IH. rewrite andb_false_r. cbn [andb]. rewrite xorb_false_l. reflexivity.
+Qed.
+
+(** ** closed form *)
+Definition gact (g : occ -> G) (s : occ) : G * occ := (g s, s).
+Definition den_term_g (ks : sig) (p : list Z) (g : occ -> G) (n : occ) : G * occ :=
+  cpass_aux ks p 0 (papp (gact g) (apass_aux ks p 0 (g1, n))).
+
+Lemma den_term_den_term_g ks t n : den_term ks t n = den_term_g ks (fst t) (cval (snd t)) n.
+Proof. reflexivity. Qed.
+
+Lemma wloc_zero k v : geq (wloc k 0 v) g1.
+Proof. destruct k; reflexivity. Qed.
+
+Theorem den_term_g_cf ks : forall p n g,
+  length p = length ks -> length n = length ks ->
+  peq (den_term_g ks p g n) (gmul (ws ks p n) (g (omid n p)), osub n p).
+Proof.
+  induction ks as [|k ks IH]; intros p n g Hp Hn.
+  - destruct p, n; try discriminate.
+    split; cbn; [ring|reflexivity].
+  - destruct p as [|q p], n as [|v n]; try discriminate.
+    injection Hp as Hp. injection Hn as Hn.
+    unfold den_term_g. cbn [apass_aux cpass_aux].
+    set (vm := v - Z.max q 0).
+    set (wA := if 0 <? q then wloc k q v else g1).
+    assert (HX : peq (if 0 <? q then papp (opact (k :: ks) 0 q) (g1, v :: n) else (g1, v :: n))
+                     (wA, vm :: n)).
+    { subst wA vm. destruct (Z.ltb_spec 0 q).
+      - unfold papp. cbn [fst snd]. rewrite opact_cons_O.
+        split; unfold pscale; cbn [fst snd]; [ring|f_equal; lia].
+      - split; cbn [fst snd]; [reflexivity|f_equal; lia]. }
+    set (sA := isF k && (vm =? 1) && parPosI ks p 0).
+    set (sC := isF k && (vm =? 1) && parNegI ks p 0).
+    assert (HIn : peq (cpass_aux (k :: ks) p 1 (papp (gact g) (apass_aux (k :: ks) p 1
+                         (if 0 <? q then papp (opact (k :: ks) 0 q) (g1, v :: n) else (g1, v :: n)))))
+                      (pscale (gsgn sC) (lift vm (pscale (gmul (gsgn sA) wA)
+                         (gmul (ws ks p n) (g (vm :: omid n p)), osub n p))))).
+    { rewrite HX. rewrite apass_aux_cons_S.
+      specialize (IH p n (fun s => g (vm :: s)) Hp Hn).
+      unfold den_term_g in IH.
+      assert (HA : peq (apass_aux ks p 0 (wA, n)) (pscale wA (apass_aux ks p 0 (g1, n)))).
+      { rewrite <- apass_aux_pscale. apply apass_aux_Proper.
+        split; unfold pscale; cbn [fst snd]; [ring|reflexivity]. }
+      rewrite HA.
+      destruct (apass_aux ks p 0 (g1, n)) as [cA nA].
+      fold sA.
+      assert (HY : peq (papp (gact g) (pscale (gsgn sA) (lift vm (pscale wA (cA, nA)))))
+                       (gmul (gmul (gsgn sA) wA) (gmul cA (g (vm :: nA))), vm :: nA)).
+      { split; unfold papp, gact, lift, pscale; cbn [fst snd]; [ring|reflexivity]. }
+      rewrite HY. rewrite cpass_aux_cons_S. fold sC.
+      assert (HC : peq (cpass_aux ks p 0 (gmul (gmul (gsgn sA) wA) (gmul cA (g (vm :: nA))), nA))
+                       (pscale (gmul (gsgn sA) wA) (gmul (ws ks p n) (g (vm :: omid n p)), osub n p))).
+      { rewrite <- IH. rewrite <- cpass_aux_pscale. apply cpass_aux_Proper.
+        split; unfold papp, gact, pscale; cbn [fst snd]; cbv beta; [ring|reflexivity]. }
+      rewrite HC. reflexivity. }
+    assert (Hsgn : geq (gmul (gsgn sC) (gsgn sA)) (gsgn (isF k && (vm =? 1) && parF ks p))).
+    { subst sC sA. rewrite <- par_split.
+      destruct (isF k), (vm =? 1), (parPosI ks p 0), (parNegI ks p 0); cbn [andb xorb gsgn]; ring. }
+    cbn [ws omid osub]. fold vm.
+    destruct (Z.ltb_spec q 0) as [Hq|Hq].
+    + rewrite HIn.
+      unfold papp, pscale, lift. cbn [fst snd].
+      rewrite opact_cons_O.
+      assert (vm = v) by (subst vm; lia).
+      assert (HwA : wA = g1) by (subst wA; destruct (Z.ltb_spec 0 q); [lia|reflexivity]).
+      split; cbn [fst snd]; [|f_equal; lia].
+      rewrite <- Hsgn, HwA. rewrite H at 3. ring.
+    + rewrite HIn.
+      split; unfold pscale, lift; cbn [fst snd]; [|f_equal; subst vm; lia].
+      rewrite <- Hsgn.
+      assert (HwA : geq wA (wloc k q v)).
+      { subst wA. destruct (Z.ltb_spec 0 q); [reflexivity|].
+        assert (q = 0) by lia. subst q. rewrite wloc_zero. reflexivity. }
+      rewrite HwA. ring.
+Qed.
+
+Corollary den_term_cf ks t n :
+  length (fst t) = length ks -> length n = length ks ->
+  peq (den_term ks t n) (den_term_cf ks t n).
+Proof.
+  intros. rewrite den_term_den_term_g. apply den_term_g_cf; auto.
 Qed.
